@@ -106,7 +106,7 @@ def check(ctx: Ctx) -> None:
                construct=f"exit {k[0]}:{k[1][0].rpartition('.')[2] if k[1] else ''}", detail=f"close counts {sorted(c)}")
     for c in ctx.distinct_sites(ctx.nodes(f, close_pred(ctx))):
         p = [e.path for e in ctx.eff.of_node(c) if e.kind == "close"]
-        rep.ob("R19.4", "what is closed is this connection's writer", p and p[0] in ("<writer>", "self._writer"), node=c, detail=str(p))
+        rep.ob("R19.4", "what is closed is this connection's writer", bool(p) and (p[0] == "<writer>" or p[0].endswith("._writer")), node=c, detail=str(p))
     hs = ctx.nodes(f, lambda n: ctx.is_await_of(n, "client_handshake"))
     ls = ctx.nodes(f, lambda n: ctx.is_await_of(n, "listen"))
     g = ctx.an.cfg(f)
